@@ -30,6 +30,10 @@ structure Reader where
   eofWithData : Bool
   /-- `fs.File` whose `Stat` succeeds: the file size -/
   fileSize : Option Nat
+  /-- a source that GOES ON after an end of file (a terminal, a growing pipe): ascending source offsets at
+      which a `Read` reports io.EOF once — the source is the sequence of segments between these marks.
+      Empty for an ordinary finite source (which reports io.EOF at its end, for ever). -/
+  marks : List Nat := []
 
 /-- the configuration of a stream: fixed while it is open -/
 structure Cfg where
@@ -46,20 +50,38 @@ structure Buf where
   rdErr : Bool := false               -- errReader.err = io.EOF
   lastRuneSize : Option Nat := none   -- b.lastRuneSize (none = -1)
   lastByte : Bool := false            -- b.lastByte >= 0
+  eofs : Nat := 0                     -- state of the SOURCE: how many of its end-of-file marks it has reported
 
 def Buf.buffered (b : Buf) : Nat := b.fetched - b.cur
 
 /-- the unread part of the buffer: b.buf[b.r:b.w] -/
 def avail (src : List Nat) (b : Buf) : List Nat := (src.drop b.cur).take (b.fetched - b.cur)
 
-/-- bufio.Reader.fill: one `Read` of the source (which returns ≥ 1 byte, or 0 bytes and io.EOF) -/
-def fill (src : List Nat) (rd : Reader) (b : Buf) : Buf :=
+/-- bufio.Reader.fill over an ordinary finite source: one `Read` (≥ 1 byte, or 0 bytes and io.EOF) -/
+def fillPlain (src : List Nat) (rd : Reader) (b : Buf) : Buf :=
   if b.fetched < src.length then
     let n := max 1 (min (rd.chunk b.fetched) (src.length - b.fetched))
     let eof : Bool := rd.eofWithData && decide (b.fetched + n = src.length)
     { b with fetched := b.fetched + n, rdErr := eof, pendErr := eof }
   else
     { b with rdErr := true, pendErr := true }
+
+/-- … over a source with end-of-file marks: a `Read` returns bytes of the current segment only (at most
+    what fits into bufio's 4096-byte buffer); at a mark it reports io.EOF once and the source goes on -/
+def fillSeg (src : List Nat) (rd : Reader) (b : Buf) : Buf :=
+  let rest := rd.marks.drop b.eofs
+  let limit := rest.head?.getD src.length
+  let used := if rest.isEmpty then b.eofs else b.eofs + 1
+  if b.fetched < limit then
+    let n := max 1 (min (rd.chunk b.fetched) (min (limit - b.fetched) (4096 - (b.fetched - b.cur))))
+    let eof : Bool := rd.eofWithData && decide (b.fetched + n = limit)
+    { b with fetched := b.fetched + n, rdErr := eof, pendErr := eof, eofs := if eof then used else b.eofs }
+  else
+    { b with rdErr := true, pendErr := true, eofs := used }
+
+/-- bufio.Reader.fill -/
+def fill (src : List Nat) (rd : Reader) (b : Buf) : Buf :=
+  if rd.marks = [] then fillPlain src rd b else fillSeg src rd b
 
 /-- the loop at the top of bufio.Reader.ReadRune; four fills always suffice (each adds ≥ 1 byte or sets err) -/
 def fillForRune (src : List Nat) (rd : Reader) : Nat → Buf → Buf
@@ -132,7 +154,7 @@ def Stream.init : Stream := {}
 
 /-- Stream.reset: a new buffer over the same source (whose offset is where it is) -/
 def reset (s : Stream) : Stream :=
-  { s with buf := { cur := s.buf.fetched, fetched := s.buf.fetched }, endOfStream := .not,
+  { s with buf := { cur := s.buf.fetched, fetched := s.buf.fetched, eofs := s.buf.eofs }, endOfStream := .not,
            lastRead := .none, eofUnread := false }
 
 /-- Stream.initRead (mode is read): the eof action when the stream is past its end -/
